@@ -14,6 +14,7 @@ import json, os, sys, re, subprocess, shutil
 from concurrent.futures import ThreadPoolExecutor
 sys.path.insert(0, os.path.join(os.path.dirname(os.path.abspath(__file__)), "..", "lib"))
 from vlib import *
+from vpar import validate_traces_parallel
 
 KEYS = ["k1", "k2", "k3"]
 
@@ -147,7 +148,7 @@ def run(ctx):
                 raise Undecided("crash run failed: %s" % pt["error"])
             results.append((s, pt))
     traces = [to_trace(pid, s, pt) for s, pt in results]
-    rejected = ctx.validate_traces("RaftWalPropTrace", "RaftWalPropTrace.cfg", traces, timeout=1500)
+    rejected = validate_traces_parallel(ctx, "RaftWalPropTrace", "RaftWalPropTrace.cfg", traces, timeout=1800, chunk=800)
     ctx.log("M3: %d crash traces validated, %d mismatches" % (len(traces), len(rejected)))
     known = {f["id"]: f for f in ctx.load_known()}
     hits, reported = {}, set()
